@@ -34,7 +34,7 @@ Inductive cdpc := CdNs | CdSelect | CdDone.                       (* command dis
 Inductive sigpc := SgOff | SgNr | SgWait | SgSendInt | SgSendQuit | SgDone.   (* signal handler goroutine *)
 Inductive ifwpc := IfNone | IfWait | IfDone.                      (* Init command forwarder *)
 Inductive rdpc := RdNone | RdReading | RdSendMsg | RdSendErr | RdDone.       (* read loop *)
-Inductive tkpc := TkNs | TkListen | TkDone.                       (* renderer ticker (listen) *)
+Inductive tkpc := TkNs | TkListen | TkDone | TkStale.             (* renderer ticker (listen); TkStale: a listener whose ticker was stopped behind its back *)
 Inductive kxpc := KxNone | KxSd (p : phase) | KxDone.             (* an external shutdown caller: Kill / panicking command *)
 Inductive finst := Fin0 | Fin1 | FinClosed.
 
@@ -75,7 +75,8 @@ Record guards := mk_guards {
   g_restore_keeps_nosig : bool;  (* RestoreTerminal does not re-enable signals that WithoutSignals switched off *)
   g_rz_guarded : bool;           (* listenForResize selects on ctx.Done; checkResize's sends (p.errs, Send) have a ctx alternative *)
   g_sig_stays : bool;            (* handleSignals keeps listening after it has forwarded a signal *)
-  g_restore_unignores_first : bool  (* RestoreTerminal clears ignoreSignals before its first call that can fail *)
+  g_restore_unignores_first : bool; (* RestoreTerminal clears ignoreSignals before its first call that can fail *)
+  g_ticker_stopped_by_stopper : bool (* the frame ticker is stopped by stop()/kill() after the hand-shake, not by the listener *)
 }.
 
 Inductive ekind := KRt | KEnv | KCbEnd | KBatchMore.
@@ -131,7 +132,7 @@ Definition sd_step (G : guards) (s : skel) (who : bool) (p : phase) (kill : bool
   | Sd3 => (* renderer.kill()/stop(): once.Do(done <- struct{}{}) needs the listener *)
     if once s then [setph s Sd4]
     else match tk s with
-         | TkListen => [setph (set_tk s TkDone true) Sd4]
+         | TkListen | TkStale => [setph (set_tk s TkDone true) Sd4]
          | _ => []
          end
   | Sd4 => (* restoreTerminalState *)
@@ -227,14 +228,19 @@ Definition steps (G : guards) (s : skel) : list (ekind * skel) :=
      if negb (g_release_stops_renderer G) then fin_ s2
      else if once s then fin_ s2
      else match tk s with
-          | TkListen => fin_ (set_tk s2 TkDone true)
+          | TkListen | TkStale => fin_ (set_tk s2 TkDone true)
           | _ => []
           end
    | RExecRun => [(KCbEnd, S RExecRestore)]
    | RExecRestore =>
      (* RestoreTerminal: ignoreSignals=0, initTerminal, initCancelReader, modes, renderer.start *)
      [(KRt, set_rl (set_tk (set_ign (set_rd (S RUpdateCb) (match rd s with RdNone => RdNone | RdSendMsg => RdSendMsg | RdSendErr => RdSendErr | _ => RdReading end))
-                                    (if g_release_ignores G then (g_restore_keeps_nosig G && nosig s) else ign s)) TkListen false) false);
+                                    (if g_release_ignores G then (g_restore_keeps_nosig G && nosig s) else ign s)) TkListen false) false)]
+      (* ... unless the old listener stops the ticker only now (it does that itself, after the hand-shake): the new one never ticks *)
+      ++ (if g_ticker_stopped_by_stopper G then [] else
+          [(KRt, set_rl (set_tk (set_ign (set_rd (S RUpdateCb) (match rd s with RdNone => RdNone | RdSendMsg => RdSendMsg | RdSendErr => RdSendErr | _ => RdReading end))
+                                         (if g_release_ignores G then (g_restore_keeps_nosig G && nosig s) else ign s)) TkStale false) false)])
+      ++ [
       (* ... or it fails (the input went away while the external program had it): the reader and the ticker are not
          started again, the terminal stays as released; signals count again only if the flag was cleared first *)
       (KEnv, set_ign (S RUpdateCb) (if g_release_ignores G && g_restore_unignores_first G then (g_restore_keeps_nosig G && nosig s) else ign s))]
